@@ -68,7 +68,18 @@ func errOrigins(p *Prog, qz *quantizer, fb *fnBounds, v ssa.Value, at *ssa.Retur
 		return []string{qz.prov(t, 0)}
 	case *ssa.Call:
 		callee := t.Call.StaticCallee()
-		if callee != nil && (callee.String() == "errors.New" || callee.String() == "fmt.Errorf") {
+		isCtor := false
+		if callee != nil && p.InModule(callee) && len(callee.Blocks) == 1 && !errOriginStop[callee.Name()] {
+			// an error constructor: a straight-line helper that returns a freshly made error
+			if ret, ok := callee.Blocks[0].Instrs[len(callee.Blocks[0].Instrs)-1].(*ssa.Return); ok && len(ret.Results) == 1 {
+				if mk, ok := ret.Results[0].(*ssa.Call); ok {
+					if mc := mk.Call.StaticCallee(); mc != nil && (mc.String() == "errors.New" || mc.String() == "fmt.Errorf") {
+						isCtor = true
+					}
+				}
+			}
+		}
+		if callee != nil && (callee.String() == "errors.New" || callee.String() == "fmt.Errorf" || isCtor) {
 			// guard: the branch conditions under which this return is reached
 			var gs []string
 			for cf := range fb.facts[at.Block().Index] {
